@@ -87,12 +87,13 @@ type c01state struct {
 	Archive string    `json:"archive"`
 	Alpha   string    `json:"alpha"` // slot a on alpha's disk
 	Beta    string    `json:"beta"`
-	L       [2]string `json:"l"` // last agreed node (shallow) at "a", "a/x"
+	L       [2]string `json:"l"`    // last agreed node (shallow) at "a", "a/x"
+	Prov    [2]string `json:"prov"` // provenance of the archive entries at "a", "a/x" (see updateProv)
 	Faults  int       `json:"faults"`
 }
 
 func (s c01state) key() string {
-	return fmt.Sprintf("%s|%s|%s|%s|%s|%d", s.Archive, s.Alpha, s.Beta, s.L[0], s.L[1], s.Faults)
+	return fmt.Sprintf("%s|%s|%s|%s|%s|%s|%s|%d", s.Archive, s.Alpha, s.Beta, s.L[0], s.L[1], s.Prov[0], s.Prov[1], s.Faults)
 }
 
 type c01req struct {
@@ -104,12 +105,20 @@ type c01req struct {
 
 type c01result struct {
 	verdict string
+	vkey    string // key of the violation: the history, or a class key (classKeyRefusedReport)
 	infra   string
 	class   string
 	state   c01state
 	reqs    []c01req // transitions requested in the LAST cycle
 	cycles  int
 	stale   int // requests whose Old did not describe the disk (refused by the scripted endpoint)
+}
+
+func (r *c01result) violationKey(c c01case) string {
+	if r.vkey != "" {
+		return r.vkey
+	}
+	return c.key()
 }
 
 func shallowOf(e *E) *E {
@@ -138,26 +147,29 @@ func lTree(l [2]*E) *E {
 // judgeC01Cycle judges one cycle against L; protect* select the sides whose
 // modifications the mode promises to keep; wantConflicts is the second sentence
 // of C01 (two-way-safe only).
-func judgeC01Cycle(l [2]*E, o *cycleObs, protectAlpha, protectBeta, wantConflicts bool) string {
-	check := func(side string, before, after *E) string {
+//
+// For a violation of the first sentence (content replaced) it also returns the
+// side and the index into c01paths of the replaced node (otherwise "", -1).
+func judgeC01Cycle(l [2]*E, o *cycleObs, protectAlpha, protectBeta, wantConflicts bool) (string, string, int) {
+	check := func(side string, before, after *E) (string, int) {
 		for i, p := range c01paths {
 			b, a := at(before, p), at(after, p)
 			// "never deletes or overwrites content ... unless that content is
 			// unchanged since the last successful synchronization"
 			if b != nil && !shallowEq(b, a) && !shallowEq(b, l[i]) {
-				return fmt.Sprintf("%s: the cycle replaced %s at %q by %s although the endpoints last agreed on %s there", side, show(shallowOf(b)), p, show(shallowOf(a)), show(l[i]))
+				return fmt.Sprintf("%s: the cycle replaced %s at %q by %s although the endpoints last agreed on %s there", side, show(shallowOf(b)), p, show(shallowOf(a)), show(l[i])), i
 			}
 		}
-		return ""
+		return "", -1
 	}
 	if protectAlpha {
-		if w := check("alpha", o.AlphaBefore, o.AlphaAfter); w != "" {
-			return w
+		if w, i := check("alpha", o.AlphaBefore, o.AlphaAfter); w != "" {
+			return w, "alpha", i
 		}
 	}
 	if protectBeta {
-		if w := check("beta", o.BetaBefore, o.BetaAfter); w != "" {
-			return w
+		if w, i := check("beta", o.BetaBefore, o.BetaAfter); w != "" {
+			return w, "beta", i
 		}
 	}
 	if wantConflicts {
@@ -173,15 +185,62 @@ func judgeC01Cycle(l [2]*E, o *cycleObs, protectAlpha, protectBeta, wantConflict
 					}
 				}
 				if !found {
-					return fmt.Sprintf("both endpoints created/modified content at %q since they last agreed (on %s; alpha %s, beta %s) but the session lists no conflict rooted there (%d conflicts listed)", d, show(at(lt, d)), show(at(o.AlphaBefore, d)), show(at(o.BetaBefore, d)), len(o.Conflicts))
+					return fmt.Sprintf("both endpoints created/modified content at %q since they last agreed (on %s; alpha %s, beta %s) but the session lists no conflict rooted there (%d conflicts listed)", d, show(at(lt, d)), show(at(o.AlphaBefore, d)), show(at(o.BetaBefore, d)), len(o.Conflicts)), "", -1
 				}
 				if !deepEq(at(o.AlphaBefore, d), at(o.AlphaAfter, d)) || !deepEq(at(o.BetaBefore, d), at(o.BetaAfter, d)) {
-					return fmt.Sprintf("both endpoints created/modified content at %q but a version did not stay on disk (alpha %s -> %s, beta %s -> %s)", d, show(at(o.AlphaBefore, d)), show(at(o.AlphaAfter, d)), show(at(o.BetaBefore, d)), show(at(o.BetaAfter, d)))
+					return fmt.Sprintf("both endpoints created/modified content at %q but a version did not stay on disk (alpha %s -> %s, beta %s -> %s)", d, show(at(o.AlphaBefore, d)), show(at(o.AlphaAfter, d)), show(at(o.BetaBefore, d)), show(at(o.BetaAfter, d))), "", -1
 				}
 			}
 		}
 	}
-	return ""
+	return "", "", -1
+}
+
+// updateProv maintains, per path of c01paths, the PROVENANCE of the archive
+// entry there: the name of the endpoint whose refused / partially applied
+// transition (reported with a problem) made the controller record that entry
+// although the two disks did not agree on it after that cycle; "" for every
+// entry that stems from an agreement of the two sides. An entry keeps its
+// provenance while it stays in the archive unchanged and the sides still do not
+// agree at that path.
+func updateProv(prov [2]string, archiveBefore *E, o *cycleObs) [2]string {
+	for i, p := range c01paths {
+		entry := at(o.Archive, p)
+		agreed := shallowEq(at(o.AlphaAfter, "a"), at(o.BetaAfter, "a")) && shallowEq(at(o.AlphaAfter, p), at(o.BetaAfter, p))
+		if entry == nil || agreed {
+			prov[i] = ""
+			continue
+		}
+		marked := ""
+		for _, call := range o.Calls {
+			if call.Errored {
+				continue // results of a failed endpoint are never recorded
+			}
+			for _, ch := range call.Changes {
+				if !ch.Problem || !(p == ch.Path || strings.HasPrefix(p, ch.Path+"/")) {
+					continue
+				}
+				rel := strings.TrimPrefix(strings.TrimPrefix(p, ch.Path), "/")
+				if node := at(ch.Result, rel); node != nil && shallowEq(node, entry) {
+					marked = call.Side
+				}
+			}
+		}
+		if marked != "" {
+			prov[i] = marked
+		} else if !shallowEq(entry, at(archiveBefore, p)) {
+			prov[i] = ""
+		}
+	}
+	return prov
+}
+
+// classKeyRefusedReport is the class of violations with one exact root cause:
+// the protected side's content that a cycle replaces equals the archive entry at
+// that path, and that entry was recorded from the OTHER endpoint's refused /
+// partially applied transition report at a path where the sides never agreed.
+func classKeyRefusedReport(mode string) string {
+	return "ctrl|" + mode + "|protected-content-equals-archive-entry-recorded-from-refused-transition"
 }
 
 // updateL: a path counts as synchronized by a cycle when, afterwards, both
@@ -231,6 +290,8 @@ func runC01(t *testing.T, root string, c c01case, logf func(string, ...any)) (re
 		pa, pb, wc, aro := protection(m)
 		w := newWorld(root, worldConfig{Mode: m, AlphaPreserves: true, BetaPreserves: true}, dir(), dir(), logf != nil)
 		var l [2]*E
+		var prov [2]string
+		var archive *E // the archive before the current cycle
 		faults := 0
 		var last *cycleObs
 		for i, s := range c.Steps {
@@ -267,8 +328,19 @@ func runC01(t *testing.T, root string, c c01case, logf func(string, ...any)) (re
 				w.fail("cycle %d did not complete: %s %v (status %v)", i+1, o.FlushErr, o.LoopErrs, o.Status)
 				break
 			}
-			if what := judgeC01Cycle(l, o, pa, pb, wc); what != "" {
+			if what, side, pi := judgeC01Cycle(l, o, pa, pb, wc); what != "" {
 				res.verdict = fmt.Sprintf("cycle %d: %s", i+1, what)
+				res.vkey = c.key()
+				if pi >= 0 {
+					before, other := o.AlphaBefore, "beta"
+					if side == "beta" {
+						before, other = o.BetaBefore, "alpha"
+					}
+					if prov[pi] == other && shallowEq(at(before, c01paths[pi]), at(archive, c01paths[pi])) {
+						res.vkey = classKeyRefusedReport(c.Mode)
+						res.verdict += fmt.Sprintf(" [the replaced content equals the archive entry at %q, which the controller recorded from %s's refused/partial transition report in an earlier cycle although the two sides never agreed on it]", c01paths[pi], other)
+					}
+				}
 				break
 			}
 			if aro {
@@ -285,6 +357,8 @@ func runC01(t *testing.T, root string, c c01case, logf func(string, ...any)) (re
 				}
 			}
 			l = updateL(l, o.AlphaAfter, o.BetaAfter)
+			prov = updateProv(prov, archive, o)
+			archive = o.Archive
 		}
 		if logf != nil && len(w.log.all) > 0 && res.verdict != "" {
 			for _, line := range w.log.all {
@@ -299,7 +373,7 @@ func runC01(t *testing.T, root string, c c01case, logf func(string, ...any)) (re
 		}
 		if last != nil {
 			res.state = c01state{Archive: show(last.Archive), Alpha: show(at(last.AlphaAfter, "a")), Beta: show(at(last.BetaAfter, "a")),
-				L: [2]string{show(l[0]), show(l[1])}, Faults: faults}
+				L: [2]string{show(l[0]), show(l[1])}, Prov: prov, Faults: faults}
 			for _, call := range last.Calls {
 				for _, ch := range call.Changes {
 					res.reqs = append(res.reqs, c01req{call.Side, ch.Path, show(ch.Old), show(ch.New)})
@@ -371,7 +445,7 @@ func c01worker(t *testing.T, job *wJob, out *wOutput) {
 		}
 		if res.verdict != "" {
 			out.addCase(c.key(), true, "violation")
-			out.violate(c.key(), res.verdict, c)
+			out.violate(res.violationKey(c), res.verdict, c)
 			return &res
 		}
 		out.addCase(c.key(), res.class != "cycle-idle", res.class)
@@ -461,7 +535,7 @@ func exploreC01(t *testing.T, r *vr.Report, root string, m core.SynchronizationM
 			var c c01case
 			json.Unmarshal(v.Case, &c)
 			again := runC01(t, root, c, nil)
-			return again.infra == "" && again.verdict != ""
+			return again.infra == "" && again.verdict != "" && again.violationKey(c) == v.Key
 		})
 		r.Add("cycles_on_real_code", extra["cycles_on_real_code"])
 		r.Add("histories", extra["histories"])
@@ -523,7 +597,7 @@ func TestC01Controller(t *testing.T) {
 			t.Fatalf("INFRA: %s", res.infra)
 		}
 		if res.verdict != "" {
-			r.Violate(c.key(), res.verdict, c, nil)
+			r.Violate(res.violationKey(c), res.verdict, c, nil)
 		}
 		return
 	}
@@ -567,7 +641,7 @@ func TestC02Controller(t *testing.T) {
 			t.Fatalf("INFRA: %s", res.infra)
 		}
 		if res.verdict != "" {
-			r.Violate(c.key(), res.verdict, c, nil)
+			r.Violate(res.violationKey(c), res.verdict, c, nil)
 		}
 		return
 	}
